@@ -13,6 +13,7 @@
 # limitations under the License.
 
 import inspect
+import os
 import re
 import shutil
 from abc import ABC, abstractmethod
@@ -259,6 +260,27 @@ class Generator(ABC):
             return output
 
 
+
+        if os.environ.get("PYDJINNI_VERIF") == "1":
+            # verification hook (guarded, add-only): record every undefined template value that is
+            # printed or iterated, so that a silently-empty rendering becomes observable
+            from jinja2 import Undefined
+            undefined_log = self._verif_undefined_log = []
+            generator_key = self.key
+
+            class RecordingUndefined(Undefined):
+                def _verif_record(self, how):
+                    undefined_log.append((generator_key, how, self._undefined_name, repr(self._undefined_obj)[:80]))
+
+                def __str__(self):
+                    self._verif_record("print")
+                    return super().__str__()
+
+                def __iter__(self):
+                    self._verif_record("iterate")
+                    return super().__iter__()
+
+            self._jinja_env.undefined = RecordingUndefined
 
         self._jinja_env.filters['comment'] = comment_filter
         self._jinja_env.filters['concat'] = concat_filter
